@@ -193,7 +193,6 @@ func (o *Object) ForEach(fn func(key []byte, i Iter), onlyKeys map[string]struct
 func (o *Object) DeleteElems(fn func(key []byte, i Iter) bool, onlyKeys map[string]struct{}) error {
 	tmp := o.tape.Iter()
 	tmp.off = o.off
-	n := 0
 	for {
 		typ := tmp.Advance()
 		// We want name and at least one value.
@@ -235,10 +234,6 @@ func (o *Object) DeleteElems(fn func(key []byte, i Iter) bool, onlyKeys map[stri
 				tmp.tape.Tape[i] = (uint64(TagNop) << JSONTAGOFFSET) | skip
 				skip--
 			}
-		}
-		n++
-		if n == len(onlyKeys) {
-			return nil
 		}
 	}
 }
